@@ -21,6 +21,8 @@ func runC08(c *Ctx) {
 	checkMutateKeysNotAliased(c)
 	checkVersionTimesFresh(c)
 	checkSigningKeyDiscipline(c)
+	// the times keys are dated with never go back and never lose a clock (ValidKeysAtTime carries the previous time over)
+	checkIdentityValidate(c)
 	// the identity versions keys are judged with are the merged ones: every remote identity is merged and reported
 	ruleDocsMerge(c)
 	effM := newEffects(w)
